@@ -155,9 +155,11 @@ class Program:
         self.bin = load_crate(bin_path, BIN)
         self.renames = []
         self.type_renames = []
+        self.anchor_adts = {}
         if use_anchors and os.path.exists(ANCHORS):
             adoc = json.load(open(ANCHORS))
             anchors = adoc["functions"]
+            self.anchor_adts = {a["path"]: a["shape"] for a in adoc.get("adts", [])}
             # moved types first: their paths are part of every method id and signature
             alla = dict(self.lib.adts)
             alla.update(self.bin.adts)
